@@ -24,8 +24,12 @@ Definition faithful : quirks := QK true true true true.
 Definition repaired : quirks := QK false false false false.
 
 (** * Static data *)
-(** a unit definition, abstractly: multiplicative scale and reference container *)
-Record udefv := UD { ud_scale : Qc; ud_ref : uc }.
+(** a unit definition, abstractly: multiplicative scale and reference container.  The reference
+    is kept as the association list of the container (distinct names, non-zero exponents) because
+    the model only ever iterates over it; [ud_refc] is the container it denotes. *)
+Notation ucl := (list (string * Qc)).
+Record udefv := UD { ud_scale : Qc; ud_ref : ucl }.
+Definition ud_refc (d : udefv) : uc := list_to_map (ud_ref d).
 Notation utable := (gmap string udefv).
 Notation params := (gmap string Qc).
 
@@ -39,7 +43,7 @@ Definition res (A : Type) : Type := (err + A)%type.
 
 (** the registry's fixed part: derived dimensions ([[speed] = [length]/[time]]) and the default
     system's base-unit replacements (root unit name ↦ container of system units) *)
-Record regcfg := RC { rc_dims : gmap string uc; rc_sys : gmap string uc }.
+Record regcfg := RC { rc_dims : gmap string ucl; rc_sys : gmap string uc }.
 
 (** a context rule  [src -> dst : value * (coef * par^(±1) * units)] *)
 Record rule := RL {
@@ -133,11 +137,11 @@ Definition is_dimname (s : string) : bool :=
   match s with String "["%char _ => true | _ => false end.
 (** [UnitDefinition.is_base]: no dimension key → derived; all dimension keys → base *)
 Definition ud_is_base (d : udefv) : bool :=
-  let ks := map fst (map_to_list (ud_ref d)) in existsb is_dimname ks && forallb is_dimname ks.
+  let ks := map fst (ud_ref d) in existsb is_dimname ks && forallb is_dimname ks.
 
 (** [_get_dimensionality_recurse] *)
-Fixpoint dim_go (fuel : nat) (dims : gmap string uc) (tbl : string → option udefv)
-    (ref : uc) (exp : Qc) (acc : uc) : res uc :=
+Fixpoint dim_go (fuel : nat) (dims : gmap string ucl) (tbl : string → option udefv)
+    (ref : ucl) (exp : Qc) (acc : uc) : res uc :=
   match fuel with
   | O => inl EOther
   | S f =>
@@ -156,31 +160,29 @@ Fixpoint dim_go (fuel : nat) (dims : gmap string uc) (tbl : string → option ud
               | None => inl EUndef
               | Some d => dim_go f dims tbl (ud_ref d) e2 a
               end
-        end) (inr acc) (map_to_list ref)
+        end) (inr acc) ref
   end.
-Definition dim_of (cfg : regcfg) (tbl : string → option udefv) (u : uc) : res uc :=
+Definition dim_ofl (cfg : regcfg) (tbl : string → option udefv) (u : ucl) : res uc :=
   match dim_go FUEL (rc_dims cfg) tbl u 1 ∅ with
   | inl e => inl e
   | inr d => inr (delete "[]" d)
   end.
+Definition dim_of (cfg : regcfg) (tbl : string → option udefv) (u : uc) : res uc :=
+  dim_ofl cfg tbl (map_to_list u).
 
-(** [scale ** exp] for integer exponents (others are outside the modelled domain) *)
-Definition qpow (q e : Qc) : res Qc :=
-  if Pos.eqb (Qden (this e)) 1 then
-    inr (match Qnum (this e) with
-         | Z0 => 1%Qc
-         | Zpos p => Qcpower q (Pos.to_nat p)
-         | Zneg p => (/ Qcpower q (Pos.to_nat p))%Qc
-         end)
-  else inl EOther.
+(** [scale ** exp] for integer exponents (others are outside the modelled domain).  Products are
+    accumulated in [Q] and canonicalised once at the end (the value is the same; it only avoids a
+    gcd per factor when the model is run). *)
+Definition qpow (q : Q) (e : Qc) : res Q :=
+  if Pos.eqb (Qden (this e)) 1 then inr (Qpower q (Qnum (this e))) else inl EOther.
 
 (** [_get_root_units_recurse] *)
 Fixpoint root_go (fuel : nat) (tbl : string → option udefv)
-    (ref : uc) (exp : Qc) (acc : Qc * uc) : res (Qc * uc) :=
+    (ref : ucl) (exp : Qc) (acc : Q * uc) : res (Q * uc) :=
   match fuel with
   | O => inl EOther
   | S f =>
-      foldr (λ (kv : string * Qc) (racc : res (Qc * uc)),
+      foldr (λ (kv : string * Qc) (racc : res (Q * uc)),
         match racc with
         | inl e => inl e
         | inr a =>
@@ -189,32 +191,36 @@ Fixpoint root_go (fuel : nat) (tbl : string → option udefv)
             | None => inl EUndef
             | Some d =>
                 if ud_is_base d then inr (a.1, uc_add a.2 kv.1 e2)
-                else match qpow (ud_scale d) e2 with
+                else match qpow (this (ud_scale d)) e2 with
                      | inl e => inl e
-                     | inr sc => root_go f tbl (ud_ref d) e2 ((a.1 * sc)%Qc, a.2)
+                     | inr sc => root_go f tbl (ud_ref d) e2 ((a.1 * sc)%Q, a.2)
                      end
             end
-        end) (inr acc) (map_to_list ref)
+        end) (inr acc) ref
   end.
 Definition root_of (tbl : string → option udefv) (u : uc) : res (Qc * uc) :=
-  root_go FUEL tbl u 1 (1%Qc, ∅).
+  match root_go FUEL tbl (map_to_list u) 1 (1%Q, ∅) with
+  | inl e => inl e
+  | inr fu => inr (Q2Qc fu.1, fu.2)
+  end.
 
 Definition all_defined (tbl : string → option udefv) (u : uc) : bool :=
   forallb (λ kv : string * Qc, match tbl kv.1 with Some _ => true | None => false end) (map_to_list u).
 
-(** plain [convert] / [_get_conversion_factor] *)
+(** plain [_convert] / [_get_conversion_factor], given the two dimensionalities *)
+Definition convert_dims (tbl : string → option udefv) (v : Qc * uc) (dst : uc) (sd dd : uc) : res Qc :=
+  if bool_decide (sd = dd) then
+    match root_of tbl (uc_div v.2 dst) with
+    | inl e => inl e
+    | inr fu => inr (v.1 * fu.1)%Qc
+    end
+  else inl EDim.
 Definition convert_plain (cfg : regcfg) (tbl : string → option udefv) (v : Qc * uc) (dst : uc) : res Qc :=
   if bool_decide (v.2 = dst) then inr v.1 else
   match dim_of cfg tbl v.2, dim_of cfg tbl dst with
   | inl e, _ => inl e
   | _, inl e => inl e
-  | inr sd, inr dd =>
-      if bool_decide (sd = dd) then
-        match root_of tbl (uc_div v.2 dst) with
-        | inl e => inl e
-        | inr fu => inr (v.1 * fu.1)%Qc
-        end
-      else inl EDim
+  | inr sd, inr dd => convert_dims tbl v dst sd dd
   end.
 
 (** * The chain as a rule graph *)
@@ -304,24 +310,29 @@ Definition ans_conv (cfg : regcfg) (chain : list centry) (tbl : string → optio
     (m : Qc) (src dst : uc) : answer :=
   if negb (all_defined tbl src && all_defined tbl dst) then AErr EUndef else
   if bool_decide (src = dst) then AQ m else
-  let edges := chain_edges chain in
-  let v : res (Qc * uc) :=
-    match edges with
-    | [] => inr (m, src)
-    | _ =>
-        match dim_of cfg tbl src, dim_of cfg tbl dst with
-        | inr sd, inr dd =>
+  match dim_of cfg tbl src, dim_of cfg tbl dst with
+  | inl e, _ => AErr e
+  | _, inl e => AErr e
+  | inr sd, inr dd =>
+      let edges := chain_edges chain in
+      (* [if self._active_ctx:] some active context has rules; then follow the shortest path *)
+      let moved : res (Qc * uc * uc) :=
+        match edges with
+        | [] => inr (m, src, sd)
+        | _ =>
             match find_path edges sd dd with
-            | Some p => walk chain p (m, src)
-            | None => inr (m, src)
+            | Some ((_ :: _ :: _) as p) =>
+                match walk chain p (m, src) with
+                | inl e => inl e
+                | inr v' => match dim_of cfg tbl v'.2 with inl e => inl e | inr sd' => inr (v', sd') end
+                end
+            | _ => inr (m, src, sd)
             end
-        | inl e, _ => inl e
-        | _, inl e => inl e
-        end
-    end in
-  match v with
-  | inl e => AErr e
-  | inr v' => match convert_plain cfg tbl v' dst with inl e => AErr e | inr x => AQ x end
+        end in
+      match moved with
+      | inl e => AErr e
+      | inr (v', sd') => match convert_dims tbl v' dst sd' dd with inl e => AErr e | inr x => AQ x end
+      end
   end.
 
 Definition ans_root (tbl : string → option udefv) (u : uc) : answer :=
@@ -384,7 +395,7 @@ Definition redefine1 (cfg : regcfg) (below : string → option udefv) (ov : utab
   | None => inl EUndef
   | Some bd =>
       if ud_is_base bd then inl EValue else
-      match dim_of cfg tbl (ud_ref bd), dim_of cfg tbl (ud_ref rd.2) with
+      match dim_ofl cfg tbl (ud_ref bd), dim_ofl cfg tbl (ud_ref rd.2) with
       | inl e, _ => inl e
       | _, inl e => inl e
       | inr a, inr b => if bool_decide (a = b) then inr (<[rd.1 := rd.2]> ov) else inl EValue
@@ -464,6 +475,7 @@ Definition mk_entry (qk : quirks) (cfg : regcfg) (kw : params) (name : string) (
      (if q_rewrite_shared qk then co_rules o else rewrite_rules cfg (co_rules o))
      (co_redefs o).
 
+Definition dummy_obj : ctxobj := CO ∅ [] [] false.   (* never used: [resolve] succeeded *)
 Definition resolve (os : objs) (cs : list string) : option (list (string * ctxobj)) :=
   mapM (λ c, o ← os !! c; Some (c, o)) cs.
 
@@ -488,7 +500,7 @@ Definition do_enable (qk : quirks) (cfg : regcfg) (os : objs) (s : rstate)
       let os' := if q_rewrite_shared qk
                  then foldl (λ m c, match m !! c with Some o => <[c := check_obj cfg o]> m | None => m end) os cs
                  else os in
-      let entries := omap (λ c, o ← os' !! c; Some (mk_entry qk cfg kw' c o)) cs in
+      let entries := map (λ c, mk_entry qk cfg kw' c (default dummy_obj (os' !! c))) cs in
       let s1 := set_active (λ a, rev entries ++ a) s in
       match switch qk cfg s1 with
       | (s2, None) => (os', s2, None)
